@@ -209,8 +209,17 @@ class Driver:
             q = drv.pending_msgs.get(key) or []
             sm = q.pop(0) if q else None
             drv.msg_of_task[asyncio.current_task()] = (message, sm)
+            arr = {'conn': str(key), 'order': len(drv.arrivals), 'at': len(drv.events), 'msg': None}
+            drv.arrivals.append(arr)
+            drv.arrival_of[id(message)] = arr
+            drv.delay_of[id(message)] = (sm or {}).get('delay', 0)
+            drv.keep.append(message)
             try:
                 await orig(message, connection)
+                if arr['msg'] is None:
+                    # the completion step returned without looking at the waiter list: for the waiters this message was
+                    # handled here, completing nobody
+                    drv.on_iterate()
             except Exception:
                 # attribute the raise to the Message event of this message (it is the last Message logged by this task)
                 for k in range(len(drv.events) - 1, -1, -1):
@@ -219,6 +228,18 @@ class Driver:
                         break
                 raise
         self.net.on_message_received = on_message_received
+        self.arrivals = []
+        self.arrival_of = {}
+        self.delay_of = {}
+
+        # an application listener for MessageReceivedEvent that really suspends (it runs before the completion step)
+        from aioslsk.events import MessageReceivedEvent
+
+        async def slow_listener(event):
+            for _ in range(drv.delay_of.get(id(event.message), 0)):
+                await asyncio.sleep(0)
+        self._slow_listener = slow_listener          # the event bus keeps weak references only
+        w.client.events.register(MessageReceivedEvent, self._slow_listener)
 
         class H(logging.Handler):
             def emit(self, rec):
@@ -273,6 +294,8 @@ class Driver:
         idx = len(self.deliveries)
         self.deliveries.append(sm)
         self.msg_index[id(message)] = idx
+        if id(message) in self.arrival_of:
+            self.arrival_of[id(message)]['msg'] = idx
         self.keep.append(message)
         self._ev(('Message', idx, message, sm))
 
@@ -491,8 +514,10 @@ def run_script(script):
                 d.go(op[1], op[2])
             else:
                 raise ValueError(op)
-        for _ in range(4):
+        for k_ in range(80):               # quiescence: at least four iterations, then until nothing is ready any more
             d.step()
+            if k_ >= 3 and not d.loop._ready:
+                break
         res = d.result()
         events = []
         for e in d.events:
@@ -506,6 +531,7 @@ def run_script(script):
                 'list_len': len(d.net._expected_response_futures), 'errlog': d.errlog,
                 'unhandled': [str(c.get('message')) + ':' + repr(c.get('exception')) for c in d.loop.unhandled],
                 'unmatched_feeds': {str(k): len(v) for k, v in d.pending_msgs.items() if v},
+                'arrivals': [dict(a) for a in d.arrivals],
                 'execs': [{'wn': n, 'index': hw['index'], 'spec': hw['spec'], 'issued_at': hw.get('issued_at'), 'sent_at': hw.get('sent_at'),
                            'send_failed': bool(hw.get('send_failed')), 'late_registration': bool(hw.get('late_registration')),
                            'task_done': hw['task'].done(),
@@ -606,6 +632,18 @@ def monitor(tr):
                     e = ev[k]
                     if e[0] == 'Message' and spec_matches(specs[i], e[2]) and not tr['raised'][k]:
                         v.append(('not-first-match', f'waiter {i} completed by message {mid} although message {e[1]} matched earlier', {'waiter': i}))
+                        break
+        # ... also in ARRIVAL order on one connection: no matching message that arrived earlier on the same connection
+        # (after the registration) may be overtaken by the completing one while its handlers / listeners are suspended
+        if w['fut'][0] == 1:
+            mid = w['fut'][1]
+            arr = {a['msg']: a for a in tr.get('arrivals', []) if a['msg'] is not None}
+            if mid in arr:
+                for a in tr.get('arrivals', []):
+                    if (a['msg'] is not None and a['conn'] == arr[mid]['conn'] and a['order'] < arr[mid]['order'] and a['at'] > reg_at[i]
+                            and a['msg'] in msgs and spec_matches(specs[i], msgs[a['msg']][1])):
+                        v.append(('overtaken-by-later-message', f'waiter {i} completed by message {mid} although message {a["msg"]}, which '
+                                  f'also matches, arrived earlier on the same connection (its handlers were still running)', {'waiter': i}))
                         break
         # the timeout the caller asked for: at that instant a pending request ends (it is not completed or left pending later)
         if i in due_pending and w['fut'] != (3, 0):
@@ -828,6 +866,8 @@ def gen_script(rng):
                     batch.append(dict(rng.choice(batch)))          # the same message again, back-to-back
                 else:
                     batch.append(gen_message_for(rng, rng.choice(specs[:max(registered, 1)])))
+            if rng.random() < 0.25:          # listeners that suspend, longer for earlier messages
+                batch = [dict(b_, delay=rng.choice([0, 1, 2, 3, 4])) for b_ in batch]
             ops.append(['feed_soon' if rng.random() < 0.3 else 'feed', batch])
         elif r < 0.78:
             ops.append(['step', rng.choice([1, 1, 1, 2, 3])])
@@ -884,6 +924,14 @@ def directed_scripts():
         out.append({'ops': [['reg', e], ['step', 1], ['go', 0, True], ['step', k], ['feed', [m]], ['step', 6]]})
         out.append({'ops': [['reg', e], ['step', 1], ['go', 0, True], ['step', k], ['feed_soon', [m]], ['step', 6]]})
     out.append({'ops': [['reg', eh], ['step', 1], ['go', 0, False], ['step', 3], ['feed', [m]], ['step', 2]]})
+    # a listener of the first message suspends longer than that of the second (both buffered back-to-back)
+    for k1 in ('raw_s', 'wait_s', 'exec'):
+        for d1, d2 in ((3, 0), (2, 1), (0, 3)):
+            a = dict(base, kind=k1)
+            pre = [['reg', a], ['step', 1], ['go', 0, True], ['step', 3]]
+            out.append({'ops': pre + [['feed', [dict(m, delay=d1), dict(m, delay=d2)]], ['step', 8]]})
+            out.append({'ops': pre + [['reg', dict(base, kind='raw_s', fields=[[0, ['eq', 1]], [1, ['eq', 2]]])],
+                                      ['feed', [dict(m, delay=d1), dict(m, delay=d2, vals={'0': 1, '1': 3, '2': 0})]], ['step', 8]]})
     # callable matchers
     wc = dict(base, kind='wait_s', fields=[[1, ['ge', 2]], [0, ['eq', 1]]])
     m_other = {'conn': 'S', 'cls': 0, 'vals': {'0': 2, '1': 3, '2': 0}}
